@@ -222,9 +222,9 @@ def shard_pipeline(sh, part):
     captured = []
     real = cr.mixed_rank_graph
 
-    def hooked(input_dataframe, args, cpu_pool, pbar):
+    def hooked(input_dataframe, *a, **k):
         captured.append(input_dataframe.copy())
-        return real(input_dataframe, args, cpu_pool, pbar)
+        return real(input_dataframe, *a, **k)
     cr.mixed_rank_graph = hooked
     rng = sh.rng('pipe', part)
     for t in range(25 if sh.tier == 'quick' else 80):
